@@ -54,6 +54,14 @@ func (in *interp) emit(t sEmit) {
 			return
 		}
 	}
+	for _, it := range t.items {
+		switch it.(type) {
+		case eMapLit, eSrec:
+			// the usage text equates `emit > f, $*` with tee (one record); the implementation and
+			// `emit @*` treat the top-level keys as variable names (one record each): not asserted
+			uncon("emit of a map literal or $*: one record, or one per top-level key")
+		}
+	}
 	vals := make([]val, len(t.items))
 	vnames := make([]string, len(t.items))
 	for i, it := range t.items {
@@ -108,7 +116,7 @@ func (in *interp) emitOne(isP bool, vname string, v val, names []string) {
 	if v.k != kMap {
 		uncon("emit by names of a %s", v.kindName())
 	}
-	in.emitByNames(isP, vname, v.m, names, &omap{})
+	in.emitByNames(isP, vname, v.m, names, &omap{}, len(names))
 }
 
 // emit @v with no names: split a nested map down to its terminal maps.
@@ -131,7 +139,7 @@ func (in *interp) emitSplit(m *omap) {
 	}
 }
 
-func (in *interp) emitByNames(isP bool, vname string, m *omap, names []string, tmpl *omap) {
+func (in *interp) emitByNames(isP bool, vname string, m *omap, names []string, tmpl *omap, nNames int) {
 	for _, e := range m.e {
 		r := vMap(tmpl).deepCopy().m
 		if _, clash := r.get(names[0]); clash {
@@ -142,12 +150,17 @@ func (in *interp) emitByNames(isP bool, vname string, m *omap, names []string, t
 			if e.v.k != kMap {
 				uncon("more emit names than map levels")
 			}
-			in.emitByNames(isP, vname, e.v.m, names[1:], r)
+			in.emitByNames(isP, vname, e.v.m, names[1:], r, nNames)
 			continue
 		}
 		// names used up
 		switch {
 		case e.v.k == kMap && !isP:
+			if nNames >= 2 {
+				// documented only for one name (remainder splayed); with two or more names the shipped
+				// `emit @*,"a","b"` example keeps the remainder under the variable's name
+				uncon("emit by two or more names that do not reach the leaves")
+			}
 			in.hit("sem:emit-by-names-remainder-splayed")
 			for _, x := range e.v.m.e {
 				if _, clash := r.get(x.k); clash {
@@ -181,7 +194,17 @@ func (in *interp) emitByNames(isP bool, vname string, m *omap, names []string, t
 // Only asserted when the names index all variables down to scalars and all have the same key lists.
 func (in *interp) emitLashed(isP bool, vnames []string, vals []val, names []string) {
 	if len(names) == 0 {
-		uncon("lashed emit without names")
+		// documented: emit (@count, @sum) with scalars gives one record count=..,sum=..
+		r := &omap{}
+		for i, v := range vals {
+			if (v.k != kInt && v.k != kStr && v.k != kBool) || vnames[i] == "" {
+				uncon("lashed emit of non-scalars without names")
+			}
+			r.put(vnames[i], v)
+		}
+		in.hit("sem:emit-lashed-scalars-side-by-side")
+		in.emitRecord(r)
+		return
 	}
 	for i, v := range vals {
 		if v.k != kMap || vnames[i] == "" {
@@ -256,7 +279,7 @@ func (in *interp) emitAll(isP bool, names []string) {
 			uncon("emit @* whose names do not reach the leaves")
 		}
 		in.hit("sem:emit-all-per-variable")
-		in.emitByNames(isP, e.k, e.v.m, names, &omap{})
+		in.emitByNames(isP, e.k, e.v.m, names, &omap{}, len(names))
 	}
 }
 
